@@ -1,14 +1,13 @@
 package main
 
 import (
+	"fmt"
+	"go/ast"
 	"go/types"
 	"golang.org/x/tools/go/ssa"
-	"sort"
-	"go/ast"
-	"fmt"
 	"os"
+	"sort"
 	"strings"
-
 )
 
 func init() {
